@@ -21,6 +21,24 @@ extern "C" __attribute__((used)) const char* __ubsan_default_options() { return 
 static volatile uint64_t g_steps = 0;
 extern "C" void __sanitizer_cov_trace_pc() { ++g_steps; }
 
+// every layer class constructible from (buffer, size) - the quantifier of the property names them all, the capture path reaches only those a
+// lower layer dispatches to
+#define WIRE_CLASS_LIST(X) \
+    X(EthernetII) X(Dot3) X(Dot1Q) X(IP) X(IPv6) X(TCP) X(UDP) X(ICMP) X(ICMPv6) X(ARP) X(DNS) X(DHCP) X(DHCPv6) X(BootP) X(RawPDU) X(LLC) X(SNAP) X(STP) X(PPPoE) X(MPLS) \
+    X(SLL) X(Loopback) X(RadioTap) X(PPI) X(Dot11Data) X(Dot11QoSData) X(Dot11Beacon) X(Dot11ProbeRequest) X(Dot11ProbeResponse) X(Dot11AssocRequest) X(Dot11AssocResponse) \
+    X(Dot11Authentication) X(Dot11Deauthentication) X(Dot11Disassoc) X(Dot11ReAssocRequest) X(Dot11ReAssocResponse) X(Dot11RTS) X(Dot11Ack) X(Dot11PSPoll) X(Dot11CFEnd) \
+    X(Dot11EndCFAck) X(Dot11BlockAckRequest) X(Dot11BlockAck) X(RSNEAPOL) X(RC4EAPOL) X(IPSecAH) X(IPSecESP) X(VXLAN) X(RTP)
+static const char* const wire_class_names[] = {
+#define X(C) #C,
+    WIRE_CLASS_LIST(X)
+#undef X
+};
+static const size_t WIRE_NCLASS = sizeof(wire_class_names) / sizeof(wire_class_names[0]);
+static Tins::PDU* construct_class(size_t idx, const uint8_t* p, uint32_t n) { size_t i = 0;
+#define X(C) if (i++ == idx) return new Tins::C(p, n);
+    WIRE_CLASS_LIST(X)
+#undef X
+    return 0; }
 static Tins::PDU* construct(int dlt, const Bytes& f) {
     using namespace Tins; const uint8_t* p = f.data(); uint32_t n = (uint32_t)f.size(); static const uint8_t z = 0; if (!p) p = &z;
     switch (dlt) { case DLT_EN10MB: if (Internals::is_dot3(p, n)) return new Dot3(p, n); return new EthernetII(p, n); case DLT_NULL: return new Loopback(p, n); case DLT_LINUX_SLL: return new SLL(p, n); case DLT_PPI: return new PPI(p, n);
@@ -156,6 +174,19 @@ struct WireEngine : Engine {
             st.inc("chk.uninitialised_memory_differential");
             if (dg[0] != dg[1]) return Verdict::bad("wire:result-depends-on-uninitialised-memory", fmt("frame #%zu (%s): constructing and inspecting it gives different results when fresh heap memory is filled with 0xa5 or with 0x5a", i, descs[i].c_str()));
         }
+        // every class directly: suffixes of the frames (so that inner-layer bytes meet the class that parses them, and every other class too), whole and
+        // cut short, in heap blocks of exactly that size; outcome as for the capture path: a packet (then inspected) or malformed_packet, nothing else
+        for (size_t i = 0; i < frames.size(); ++i) { const Bytes& f = frames[i]; uint64_t hsh = fnv1a(f.data(), f.size()) ^ p.seed; if ((hsh & 7) != 0 || f.empty()) continue;
+            static const size_t offs[16] = { 0, 4, 8, 14, 16, 18, 22, 24, 26, 32, 34, 38, 42, 54, 62, 74 };
+            for (int oi = 0; oi < 3; ++oi) { size_t off = offs[(hsh >> (8 + 4 * oi)) & 15]; if (off > f.size()) off = 0; size_t full = f.size() - off;
+                for (int cut = 0; cut < 2; ++cut) { size_t n = cut ? (full ? (size_t)((hsh >> 24) % full) : 0) : full; uint8_t* buf = (uint8_t*)malloc(n ? n : 1); if (n) memcpy(buf, f.data() + off, n); const uint8_t* view = n ? buf : buf + 1;
+                    for (size_t ci = 0; ci < WIRE_NCLASS; ++ci) { st.inc("chk.direct_class_construction");
+                        try { int64_t live0 = ledger::live; { ledger::Scope sc; std::unique_ptr<PDU> q(construct_class(ci, view, (uint32_t)n)); if (q) { inspect::Counters c3; inspect::packet(*q, c3); } }
+                            if (ledger::live != live0) { free(buf); return Verdict::bad("wire:leak", fmt("%lld allocations made while constructing and inspecting a %s from %zu bytes are still live after it was destroyed", (long long)(ledger::live - live0), wire_class_names[ci], n)); } }
+                        catch (malformed_packet&) { st.inc("probe.direct_class_rejected"); }
+                        catch (Tins::exception_base& e) { free(buf); return Verdict::bad(std::string("wire:constructor-threw:") + demangle(typeid(e).name()), std::string("the from-buffer constructor of ") + wire_class_names[ci] + " threw a libtins exception other than malformed_packet"); }
+                        catch (std::exception& e) { free(buf); return Verdict::bad(std::string("wire:constructor-threw:") + demangle(typeid(e).name()), std::string("the from-buffer constructor of ") + wire_class_names[ci] + " (or an accessor of its result) threw a foreign exception"); } }
+                    free(buf); } } }
         for (auto& fk : simdisk::fired) st.inc(fk.first, fk.second);
         st.inc("chk.frame_budget", budget_checks); st.inc("chk.accepted_packet", accepted); st.inc("probe.faulted_frame_still_parses", inspected_faulted); st.inc("probe.faulted_frame_rejected_as_malformed", rejected); st.inc("chk.accessor_calls", ic.calls); st.inc("probe.accessor_libtins_exceptions", ic.tins_exc); st.inc("probe.layers_inspected", ic.layers); st.inc("probe.app_payload_decodes", ic.app_decodes);
         st.ctr["probe.max_kilo_blocks_per_packet"] = std::max(st.ctr["probe.max_kilo_blocks_per_packet"], max_ratio);
